@@ -717,7 +717,7 @@ class Eval:
         if k == 'v':
             if t[2] in self.mem:
                 return self.mem[t[2]]
-            d = self.b.def_term(t[2])
+            d = self.b.def_term(t[2]) if self.b is not None else None
             if d is not None:
                 return self.val(d)
             raise Unsupported('variable %s' % t[1])
@@ -867,3 +867,24 @@ def other_edges(body, gate, value):
     if value in arms and body.blocks[oth]['term']['k'] != 'unreachable':
         out.append(Edge(b, oth))
     return out
+
+
+def unwrapped(body, x, keep=()):
+    """The value behind any spelling of "the success payload of X": X?, match X { Ok(v) => v, .. }, Some-payloads,
+    references and moves are stripped after expanding single-definition variables."""
+    x = peel_all(expand_vars(body, x, keep=keep))
+    for _ in range(16):
+        if x[0] == 'try':
+            x = x[1]
+        elif x[0] == 'f' and x[1][0] == 'dc' and x[1][2] in ('Ok', 'Continue', 'Some') and x[2] == '0':
+            x = x[1][1]
+        elif is_call(x, r'Try::branch$'):
+            x = x[2][0]
+        else:
+            y = peel_all(x)
+            if y == x:
+                break
+            x = y
+            continue
+        x = peel_all(x)
+    return x
